@@ -516,6 +516,7 @@ def run(rep, programs):
     r_stats_exact(rep, prog)
     from props import c01
     c01.r_toggle_dispatch(rep, prog)     # is_zero's mask is what the per-frame query reads
+    c01.r_huge_coord(rep, prog)          # the counter that is charged and the bits that are flipped belong to one huge frame
     # the counter that is charged belongs to the tree the frame is taken from
     from props import c15
     c15.r_reserve_before_lower(rep, prog)
